@@ -106,6 +106,7 @@ type fixture struct {
 	rn      *svc.Runner
 	changes []map[string]interface{} // OldValues seen by change listeners
 	deletes []interface{}            // Data seen by delete listeners
+	heard   []string                 // every event the listeners were called with
 	workers int                      // worker count (default 1)
 	quiet   bool                     // listeners record nothing (concurrent runs)
 }
@@ -203,6 +204,7 @@ func (f *fixture) open() error {
 		if f.quiet {
 			return
 		}
+		f.heard = append(f.heard, e.Name+" "+e.Resource.ResourceName())
 		switch e.Name {
 		case "change":
 			f.changes = append(f.changes, e.OldValues)
@@ -211,6 +213,9 @@ func (f *fixture) open() error {
 		}
 	})
 	s.AddListener("c.$id", func(e *res.Event) {
+		if !f.quiet {
+			f.heard = append(f.heard, e.Name+" "+e.Resource.ResourceName())
+		}
 		if e.Name == "delete" && !f.quiet {
 			f.deletes = append(f.deletes, e.Data)
 		}
@@ -386,6 +391,7 @@ func run(c Case) (msg string, nontrivial bool) {
 		before := f.dump()
 		mark := f.conn.LogLen()
 		nch, ndel := len(f.changes), len(f.deletes)
+		nheard := len(f.heard)
 		var panicked interface{}
 		var value interface{}
 		var valueErr error
@@ -456,6 +462,9 @@ func run(c Case) (msg string, nontrivial bool) {
 			}
 			if len(pubs) != 0 {
 				return fmt.Sprintf("%s: the event cannot be applied (%s) but %s was published", where, why, pubs[0].Subject)
+			}
+			if len(f.heard) != nheard {
+				return fmt.Sprintf("%s: the event cannot be applied (%s) but the listeners were called with %q", where, why, f.heard[nheard:])
 			}
 			if after := f.dump(); after != before {
 				return fmt.Sprintf("%s: the event cannot be applied (%s) but storage changed from %q to %q", where, why, before, after)
@@ -712,12 +721,12 @@ func genCase() *rapid.Generator[Case] {
 		nums := []string{`1`, `2`, `0.5`}
 		for i := 0; i < n; i++ {
 			st := Step{K: rapid.SampledFrom([]string{"change", "change", "change", "add", "add", "remove", "create", "create", "delete", "value", "get", "reopen"}).Draw(t, "k")}
-			st.RID = rapid.SampledFrom([]string{"svc.m.1", "svc.m.2", "svc.c.1", "svc.c.2"}).Draw(t, "rid")
+			st.RID = rapid.SampledFrom([]string{"svc.m.1", "svc.m.2", "svc.c.1", "svc.c.2", "svc.m.10", "svc.c.10"}).Draw(t, "rid") // (svc.m.1 is a prefix of svc.m.10)
 			if (st.K == "change") && rapid.IntRange(0, 9).Draw(t, "wrongtype") != 0 {
-				st.RID = rapid.SampledFrom([]string{"svc.m.1", "svc.m.2"}).Draw(t, "mrid")
+				st.RID = rapid.SampledFrom([]string{"svc.m.1", "svc.m.2", "svc.m.10"}).Draw(t, "mrid")
 			}
 			if (st.K == "add" || st.K == "remove") && rapid.IntRange(0, 9).Draw(t, "wrongtype") != 0 {
-				st.RID = rapid.SampledFrom([]string{"svc.c.1", "svc.c.2"}).Draw(t, "crid")
+				st.RID = rapid.SampledFrom([]string{"svc.c.1", "svc.c.2", "svc.c.10"}).Draw(t, "crid")
 			}
 			switch st.K {
 			case "change":
